@@ -97,7 +97,9 @@ def _kwargs_wrapper(fn, kwarg):
     return None
 
 
-def _cache_key(ctx, model):
+def _cache_key(ctx, model, scope=None):
+    """scope: None = every subclass of CachedMapper in the package; otherwise
+    only overrides in the MRO of the listed classes are judged"""
     cm = model.cls(f"{M}:CachedMapper")
     mem = cm.members.get("get_cache_key")
     if mem is None or mem.kind != "func":
@@ -138,7 +140,16 @@ def _cache_key(ctx, model):
                "f(b=2, a=1) miss each other or the key is unhashable")
     # overrides anywhere in the package
     n = 0
-    for c in model.subclasses(cm):
+    if scope is None:
+        todo = model.subclasses(cm)
+    else:
+        todo = []
+        for k in scope:
+            for b in model.mro(k):
+                if not isinstance(b, str) and model.is_subclass(b, cm) and \
+                        b not in todo:
+                    todo.append(b)
+    for c in todo:
         if c is cm:
             continue
         own = c.members.get("get_cache_key")
@@ -162,6 +173,25 @@ def _cache_key(ctx, model):
 
 def check_lookaside(ctx, model):
     cm = model.cls(f"{M}:CachedMapper")
+    # the look-aside table is created per instance by the constructor and never
+    # declared as a class-level mutable object
+    from ..rules import init_effects
+    eff = init_effects(model, cm)
+    shared = []
+    for c in model.classes.values():
+        if model.is_subclass(c, cm):
+            m_ = c.members.get("_cache")
+            if m_ is not None and m_.kind in ("ann", "value"):
+                v = m_.node.value if m_.kind == "ann" else m_.node
+                if v is not None and _is_mutable_literal(v):
+                    shared.append(c.name)
+    ok = "_cache" in eff and not shared
+    ctx.ob("O/CachedMapper/table-per-instance", ok, cm.loc(),
+           "CachedMapper.__init__ creates the table for each instance" if ok else
+           ("a class-level mutable _cache is declared in " + ", ".join(shared) +
+            ": all instances share one table although the key leaves out what "
+            "an instance was constructed with" if shared else
+            "CachedMapper.__init__ no longer creates self._cache"))
     mem = cm.members.get("__call__")
     if mem is None or mem.kind != "func":
         raise AnalysisError("CachedMapper.__call__ not found")
@@ -309,6 +339,73 @@ def check_cse_mixin(ctx, model):
                    "computed result under the key")
     ctx.ob("P/cse-mixin/paths", n_hit >= 1 and n_miss >= 1, loc,
            f"{n_hit} hit / {n_miss} miss paths")
+    # the table lives in the mapper *instance*: the key leaves out everything
+    # the instance was constructed with (evaluation context, differentiation
+    # variable, flags), so a table shared between instances hands one
+    # instance's results to another
+    tables = set()
+    for n in ast.walk(mem.node):
+        if isinstance(n, ast.Attribute) and isinstance(n.value, ast.Name) and \
+                n.value.id == "self" and not isinstance(n.ctx, ast.Del):
+            # attributes of self that are subscripted (directly or through a
+            # local alias)
+            tables.add(n.attr)
+    tables = {t for t in tables if _is_table_use(mem.node, t)}
+    shared = []
+    for c in model.classes.values():
+        if not (c is mx or model.is_subclass(c, mx)):
+            continue
+        for t in tables:
+            m_ = c.members.get(t)
+            if m_ is not None and m_.kind in ("ann", "value"):
+                v = m_.node.value if m_.kind == "ann" else m_.node
+                if _is_mutable_literal(v):
+                    shared.append(f"{c.name}.{t}")
+    ctx.ob("O/cse-mixin/table-per-instance", not shared and bool(tables), loc,
+           f"the table ({sorted(tables)}) is an instance attribute" if not shared
+           and tables else
+           f"the CSE table is a class-level mutable object ({shared}): it is "
+           "shared by every instance (and every mapper class using the mix-in), "
+           "but its key holds only the wrapper and the extra arguments, not what "
+           "the instance was constructed with -- a second differentiation with "
+           "respect to another variable, or a second evaluation in another "
+           "context, gets the first one's results")
+
+
+def _is_mutable_literal(v):
+    if isinstance(v, (ast.Dict, ast.List, ast.Set)):
+        return True
+    return isinstance(v, ast.Call) and ast.unparse(v.func) in (
+        "dict", "list", "set", "defaultdict", "collections.defaultdict",
+        "OrderedDict", "collections.OrderedDict")
+
+
+def _is_table_use(fn, attr):
+    """is self.<attr> subscripted in fn, directly or through a local alias?"""
+    aliases = set()
+    for n in ast.walk(fn):
+        if isinstance(n, ast.Assign):
+            vals = [n.value]
+            # chained  a = self.x = {}
+            for v in vals:
+                if isinstance(v, ast.Attribute) and isinstance(
+                        v.value, ast.Name) and v.value.id == "self" and \
+                        v.attr == attr:
+                    aliases.update(t.id for t in n.targets
+                                   if isinstance(t, ast.Name))
+            if any(isinstance(t, ast.Attribute) and isinstance(t.value, ast.Name)
+                   and t.value.id == "self" and t.attr == attr
+                   for t in n.targets):
+                aliases.update(t.id for t in n.targets if isinstance(t, ast.Name))
+    for n in ast.walk(fn):
+        if isinstance(n, ast.Subscript):
+            b = n.value
+            if isinstance(b, ast.Name) and b.id in aliases:
+                return True
+            if isinstance(b, ast.Attribute) and isinstance(b.value, ast.Name) \
+                    and b.value.id == "self" and b.attr == attr:
+                return True
+    return False
 
 
 def _variants(ctx, model):
